@@ -391,6 +391,14 @@ def search(ctx, v):
         c.setdefault("steps", rng.randint(1, 3000))
         ctx.count("search:calibration-direct")
         report(ctx, calibration_oracle(c), c)
+    # every run: the PRV accountant with a search tolerance other than its own default eps_error (finer and coarser)
+    for tol in (0.002, 0.05):
+        c = gen_real(rng, ("prv",))
+        c.pop("epochs", None)
+        c.pop("opts", None)
+        c.update(steps=rng.randint(20, 400), tol=tol, target=rng.choice([1.0, 3.0]), L=rng.randint(20, 200), delta=1e-5)
+        ctx.count("search:calibration-direct:prv-tolerance")
+        report(ctx, calibration_oracle(c), c)
     # (b) end-to-end
     if ctx.thorough:
         Ls = list(range(1, 301))
